@@ -15,9 +15,10 @@ pub mod c14;
 pub mod c15;
 pub mod c16;
 pub mod c17;
+pub mod c18;
 pub mod hostile;
 
-pub const ALL: &[&str] = &["C01", "C02", "C03", "C04", "C05", "C06", "C07", "C08", "C09", "C10", "C11", "C13", "C14", "C15", "C16", "C17"];
+pub const ALL: &[&str] = &["C01", "C02", "C03", "C04", "C05", "C06", "C07", "C08", "C09", "C10", "C11", "C13", "C14", "C15", "C16", "C17", "C18"];
 
 pub fn make(id: &str) -> Option<Box<dyn Check>> {
     match id {
@@ -37,6 +38,7 @@ pub fn make(id: &str) -> Option<Box<dyn Check>> {
         "C15" => Some(Box::new(c15::C15)),
         "C16" => Some(Box::new(c16::C16)),
         "C17" => Some(Box::new(c17::C17::new())),
+        "C18" => Some(Box::new(c18::C18::new())),
         _ => None,
     }
 }
